@@ -338,6 +338,7 @@ def run(R):
         R.saw(cr)
         fm = cr.calls(pat='Status::from_header_map')
         R.check(len(fm) == 1 and mentions_call(cr.origin(fm[0][1]['args'][0]), name='headers'), 'C02.R6', 'trailers-only-status-read', site(cr), 'Status::from_header_map(response.headers())')
+        check_trailers_only_read(R, tonic, 'C02.R6')
         # Err(..) written to the return place, or built by a (spliced) classifying helper and handed on with `?`
         def reaches_return(l_, depth=0):
             if l_ == 0 or any(t_.get('name') == 'branch' and any((a_.get('mv') or a_.get('cp') or {}).get('l') == l_ for a_ in t_['args']) for bb_, t_ in cr.calls(name='branch')):
